@@ -33,6 +33,7 @@ ASSUMPTIONS = {
 }
 LEMMAS = {"lemma_names_upto_step": {"C20"}, "lemma_pnames_upto_step": {"C20"}, "lemma_visible_push": {"C20"}, "lemma_visible_same": {"C20"}}
 UNVERIFIED = {"C20": [
+    "visit_expr_variable treats every name that is also a toplevel value of the file as not free: the contract states that rule as the code has it, and it is WRONG for a local variable that has the name of a toplevel function (recorded finding freevars.bounded[extract_finding:local_named_like_a_toplevel_function])",
     "extract-function: that the Visitor trait's default traversal reaches every variable reference through these methods (the induction over the syntax tree) is assumed, see visit_expr; which constructs bind names is compared with the list of Expression_ variants (obligation binding_constructs_are_overridden)",
     "extract-function: the splice of the new function and the call into the text (extract_single_expr / extract_exprs / extracted_fun_src) and find_block_selection are covered by the bounded stand-in only",
 ]}
